@@ -1,6 +1,6 @@
 CONSTANTS
   Depth = 2
-  Bases = {"S0x", "S0i", "S1x", "S1i", "S2x", "S2i", "S3x", "S3i", "S5x", "S5i"}
+  Bases = {"S0x", "S0i", "S1x", "S1i", "S2x", "S2i", "S3x", "S3i", "S5x", "S5i", "T0", "T2e", "T2d", "T3"}
 SPECIFICATION Spec
 INVARIANT Transparent
 INVARIANT OnlyAdditions
